@@ -23,7 +23,7 @@ def run_lemmas(ctx, fam):
     from checks import blocksfam, fullfam
     blk, full = LEMMAS[fam]
     jobs = [blocksfam.lemma_job(fam + "_lemmas", blk, ctx.tier)]
-    sets = ["fullA", "fullB", "fullC"] + (["fullD"] if ctx.tier == "thorough" and fam != "c09" else [])
+    sets = ["fullA", "fullB", "fullC", "fullE"] + (["fullD"] if ctx.tier == "thorough" and fam != "c09" else [])
     for s in sets:
         jobs.append(dict(module="Full", cfg_text=fullfam.cfg(s, 2).replace("CONSTRAINT Emit\n", "INVARIANTS %s\n" % full),
                          name="Full_%s_lemmas_%s" % (fam, s), workers=8, timeout=6000))
